@@ -7,6 +7,9 @@ header / cookie parameters is computed by the model from the schema as declared 
 as_json_schema + can_negate_headers of declared header / cookie parameters against header_prop_schema / header_class ->
 correspondence B: negate_constraints / change_type / remove_required_property run with a scripted draw against
 the Gallina mutations, python-jsonschema against Model_C02.valid -> correspondence C: coerce / wire_valid ->
+correspondence E: is_non_empty_query, jsonify_python_specific_types and the URL of the prepared request (serialize_case + requests)
+against Model_C02 Part E (query dicts with lists of None, nested empties, dicts) -> oracle E: negative cases of query-only,
+all-optional operations sent over the real transport to a loopback server, the received query string judged against the declared schema ->
 oracle search: every labelled part of every negative draw validated with python-jsonschema against an
 independently built location schema (raw and through string coercion), SkipTest vs cases vs Unsatisfiable.
 """
@@ -752,6 +755,7 @@ def oracle_case(chk, shape, event, mode, stats):
         return
     neg_present_invalid = 0
     all_neg_wire_valid = True
+    dropped_entry = False
     for loc in LOCS:
         label = comps.get(CONTAINER[loc])
         value = getattr(case, CONTAINER[loc])
@@ -780,7 +784,27 @@ def oracle_case(chk, shape, event, mode, stats):
                 all_neg_wire_valid = False  # text-form reading only for wholly generated parts
             else:
                 neg_present_invalid += 1
-                if wire_valid_location(lschema, judged):
+                received = None
+                if loc == "query" and isinstance(value, dict):
+                    # what the prepared request really carries (None items and empty lists send nothing, lists repeat the name)
+                    try:
+                        pairs = case_query_pairs(case)
+                    except Exception:  # noqa: BLE001
+                        pairs = None
+                    if pairs is not None:
+                        names = [k for k, _ in pairs]
+                        received = dict(pairs) if len(set(names)) == len(names) else False
+                        if any(k not in names for k in value):
+                            dropped_entry = True
+                        if not pairs and wire_valid_location(lschema, {}):
+                            stats["query_sent_without_pairs"] = stats.get("query_sent_without_pairs", 0) + 1
+                            chk.fail("query labelled negative is sent without any query string, and no query is valid for the declared schema", inp,
+                                     {"component": "query", "value": repr(value)[:200]})
+                            all_neg_wire_valid = False
+                            continue
+                if received is False:
+                    all_neg_wire_valid = False  # a repeated name
+                elif wire_valid_location(lschema, judged if received is None else received):
                     stats["wire_valid_negative_parts"] += 1
                 else:
                     all_neg_wire_valid = False
@@ -808,7 +832,11 @@ def oracle_case(chk, shape, event, mode, stats):
                 chk.fail("body labelled positive violates its schema", inp, {"body": repr(case.body)[:200]})
     if neg_present_invalid and all_neg_wire_valid:
         stats["cases_valid_on_the_wire"] += 1
-        chk.fail("negative case is valid once values are turned into text", inp, region="coercion_gap")
+        if dropped_entry:
+            stats["cases_valid_after_dropped_entry"] = stats.get("cases_valid_after_dropped_entry", 0) + 1
+            chk.fail("negative case: the offending query entry sends nothing, what is sent is valid", inp, region="negated_entry_dropped_on_wire")
+        else:
+            chk.fail("negative case is valid once values are turned into text", inp, region="coercion_gap")
 
 
 def resolve_merged(chk, stats):
@@ -1463,12 +1491,419 @@ def stage_coercion(chk, n):
 
 
 # ----------------------------------------------------------------------------------------
+# stage E: the query ON THE WIRE (containers).  Correspondence of is_non_empty_query, jsonify_python_specific_types and the
+# prepared request URL with Model_C02 Part E; then an oracle on what a loopback server really receives.
+# ----------------------------------------------------------------------------------------
+PRIMS = {"integer": "PInt", "boolean": "PBool", "string": "PString"}
+QKEYS = ["limit", "flag", "ids", "zz", "", "é", "a b"]
+QSCALARS = [None, None, True, False, 0, -1, 5, 12, 10**12, "", "5", "-3", "true", "false", "null", "abc", "a b&c=d", "é", "it's", "back\\slash", "None"]
+QCONTAINERS = [
+    [], [None], [None, None], [[]], [[], None], [None, 1], [None, 5], [1, 2], [None, "a"], [True], [False, None], [[None]], [[1, None]], [{}], [{"a": None}], [""],
+    [None, [], None], [[], []], [[[]]], ["a", "b"], [None, "true"], [None, None, 7],
+    {}, {"a": None}, {"a": {}}, {"a": {"b": None}}, {"a": [None]}, {"": 1}, {"a": True, "b": [True, None]}, {"a": {"b": {"c": False}}}, {"x": []},
+]
+
+
+def gen_qvalue(rng, depth=0):
+    r = rng.random()
+    if r < 0.35:
+        return copy.deepcopy(rng.choice(QCONTAINERS))
+    if r < 0.7 or depth >= 2:
+        v = rng.choice(QSCALARS)
+        if isinstance(v, int) and not isinstance(v, bool) and rng.random() < 0.3:
+            v = rng.choice([-1, 1]) * rng.getrandbits(rng.choice([3, 20, 66]))
+        return v
+    if r < 0.88:
+        return [gen_qvalue(rng, depth + 1) for _ in range(rng.choice([0, 1, 1, 2, 3]))]
+    return {rng.choice(["a", "b", "", "é", "it's"]): gen_qvalue(rng, depth + 1) for _ in range(rng.choice([0, 1, 2]))}
+
+
+def gen_qdecl(rng):
+    names = rng.sample(["limit", "flag", "ids", "a b"], rng.choice([1, 1, 2, 3]))
+    return {n: (rng.choice(["integer", "integer", "boolean", "string"]), rng.random() < 0.25) for n in names}
+
+
+def c_qdecl(decl):
+    return clist([ctuple(cstr(n), f"{{| q_type := {PRIMS[t]}; q_required := {cbool(r)} |}}") for n, (t, r) in decl.items()], "(str * qparam)")
+
+
+def qdecl_location_schema(decl):
+    """The location schema parameters_to_json_schema builds for such a query, written by the harness."""
+    out = {"type": "object", "properties": {n: {"type": t} for n, (t, _) in decl.items()}, "additionalProperties": False}
+    req = [n for n, (_, r) in decl.items() if r]
+    if req:
+        out["required"] = req
+    return out
+
+
+def decode_query_string(qs):
+    """The key=value pairs a server decodes from the raw query string, in order."""
+    if not qs:
+        return []
+    out = []
+    for item in qs.split("&"):
+        k, _, v = item.partition("=")
+        out.append((unquote_plus(k), unquote_plus(v)))
+    return out
+
+
+def wire_valid_pairs(decl, pairs, array_names=()):
+    """The harness reading of the received query against the DECLARED parameters: every name declared, a non-array name sent once,
+    each text in the lexical space of the declared type (items type for arrays), every required name there."""
+    names = [k for k, _ in pairs]
+    for k, text in pairs:
+        if k not in decl:
+            return False
+        ty = decl[k][0]
+        if k not in array_names and names.count(k) != 1:
+            return False
+        if ty == "integer" and not INT_RE.match(text):
+            return False
+        if ty == "boolean" and text not in ("true", "false"):
+            return False
+    return all(n in names for n, (_, r) in decl.items() if r)
+
+
+_WIRE_OP = {}
+
+
+def prepared_query_pairs(query):
+    """What RequestsTransport.serialize_case + requests really put into the URL for case.query == query (no network)."""
+    import requests
+    import schemathesis
+
+    if "op" not in _WIRE_OP:
+        raw = {"openapi": "3.0.2", "info": {"title": "t", "version": "1"},
+               "paths": {"/x": {"post": {"parameters": [{"name": "limit", "in": "query", "required": False, "schema": {"type": "integer"}}], "responses": {"200": {"description": "ok"}}}}}}
+        _WIRE_OP["op"] = schemathesis.openapi.from_dict(raw)["/x"]["POST"]
+    case = _WIRE_OP["op"].Case(query=query)
+    return case_query_pairs(case)
+
+
+def case_query_pairs(case):
+    import requests
+    from urllib.parse import urlsplit
+
+    kw = case.as_transport_kwargs(base_url="http://127.0.0.1:9")
+    url = requests.Request(method=kw["method"], url=kw["url"], params=kw["params"]).prepare().url
+    return decode_query_string(urlsplit(url).query)
+
+
+def stage_query_wire(chk, n):
+    import jsonschema
+
+    from schemathesis.specs.openapi._hypothesis import jsonify_python_specific_types
+    from schemathesis.specs.openapi.negative import is_non_empty_query
+
+    rng = chk.rng
+    fixed = [
+        ({"limit": ("integer", False)}, {"limit": [None]}), ({"limit": ("integer", False)}, {"limit": [None, None]}),
+        ({"limit": ("integer", False)}, {"limit": 5, "zz": []}), ({"limit": ("integer", False)}, {"limit": [None, 1]}),
+        ({"limit": ("integer", False)}, {"limit": None}), ({"limit": ("integer", False)}, {"limit": {}}), ({"limit": ("integer", False)}, {"limit": [[]]}),
+        ({"limit": ("integer", False)}, {}), ({"limit": ("integer", True)}, {"limit": [None]}), ({"flag": ("boolean", False)}, {"flag": [True]}),
+        ({"limit": ("integer", False), "flag": ("boolean", False)}, {"limit": [None], "flag": [None, None]}),
+        ({"limit": ("integer", False)}, {"zz": {"a": [None]}}), ({"limit": ("integer", False)}, {"limit": {"a": None}}),
+    ]
+    cases = list(fixed)
+    for path in sorted((core.VERIF / "corpus" / "C02").glob("query_*.json")):
+        c = json.loads(path.read_text())
+        cases.append(({k: (t, bool(r)) for k, (t, r) in c["declared"].items()}, c["query"]))
+    for _ in range(n):
+        decl = gen_qdecl(rng)
+        q = {}
+        for _ in range(rng.choice([0, 1, 1, 2, 2, 3])):
+            k = rng.choice(list(decl) + QKEYS) if rng.random() < 0.8 else rng.choice(QKEYS)
+            q[k] = gen_qvalue(rng)
+            if k in decl and rng.random() < 0.35:  # a value of the declared type
+                q[k] = {"integer": rng.choice([0, 5, -7]), "boolean": rng.choice([True, False]), "string": rng.choice(["", "abc", "5"])}[decl[k][0]]
+        cases.append((decl, q))
+    exprs = []
+    for decl, q in cases:
+        cq, cd = c_jdict(q), c_qdecl(decl)
+        exprs.append(
+            f"(let q := {cq} in let d := {cd} in (is_non_empty_query q, jsonify_query q, wire_count q, query_wire q, "
+            f"(valid_query d q, match query_wire q with Some ps => Some (wire_valid_query d ps) | None => None end, entry_dropped q), "
+            f"(query_survives d q, passes_query_filter is_non_empty_query d q)))"
+        )
+    model = core.coq_eval(IMPORTS, exprs)
+    stats = {"queries": len(cases), "guard_true": 0, "empty_on_wire": 0, "texts_compared": 0, "entry_dropped": 0, "theorem_instances": 0, "disagreements": 0}
+    for (decl, q), (m_guard, m_json, m_count, m_wire, (m_valid, m_wvalid, m_dropped), (m_surv, m_pass)) in zip(cases, model):
+        inp = {"declared": {k: list(v) for k, v in decl.items()}, "query": q}
+        containers = any(isinstance(v, (list, dict)) for v in q.values())
+        chk.seen({"query_wire": inp}, containers)
+        bad = stats["disagreements"]
+        i_guard = bool(is_non_empty_query(copy.deepcopy(q)))
+        if i_guard != m_guard:
+            chk.disagree("is_non_empty_query vs Model_C02.is_non_empty_query", inp, i_guard, m_guard)
+            stats["disagreements"] += 1
+        i_json = jsonify_python_specific_types(copy.deepcopy(q))
+        m_json_py = {pstr(k): pjson(v) for k, v in m_json}
+        if i_json != m_json_py or [type(v) for v in i_json.values()] != [type(v) for v in m_json_py.values()]:
+            chk.disagree("jsonify_python_specific_types vs Model_C02.jsonify_query", inp, i_json, m_json_py)
+            stats["disagreements"] += 1
+        pairs = prepared_query_pairs(copy.deepcopy(i_json))
+        if len(pairs) != m_count:
+            chk.disagree("number of key=value pairs of the prepared request URL vs Model_C02.wire_count", inp, pairs, m_count)
+            stats["disagreements"] += 1
+        m_pairs = popt(m_wire)
+        if m_pairs is not None:
+            stats["texts_compared"] += 1
+            m_pairs = [(pstr(k), pstr(t)) for k, t in m_pairs]
+            if m_pairs != pairs:
+                chk.disagree("prepared request URL (serialize_case + requests) vs Model_C02.query_wire", inp, pairs, m_pairs)
+                stats["disagreements"] += 1
+            ours = wire_valid_pairs(decl, pairs)
+            if popt(m_wvalid) != ours:
+                chk.disagree("wire reading of the oracle vs Model_C02.wire_valid_query", inp, ours, popt(m_wvalid))
+                stats["disagreements"] += 1
+        i_valid = jsonschema.Draft4Validator(qdecl_location_schema(decl)).is_valid(q)
+        if i_valid != m_valid:
+            chk.disagree("python-jsonschema on the location schema vs Model_C02.valid_query", inp, i_valid, m_valid)
+            stats["disagreements"] += 1
+        i_dropped = any(k not in [p[0] for p in pairs] for k in q)
+        if i_dropped != m_dropped:
+            chk.disagree("entry without any pair in the prepared URL vs Model_C02.entry_dropped", inp, i_dropped, m_dropped)
+            stats["disagreements"] += 1
+        stats["guard_true"] += bool(i_guard)
+        stats["empty_on_wire"] += not pairs
+        stats["entry_dropped"] += bool(i_dropped)
+        if stats["disagreements"] == bad and m_pass is True and m_surv is True and m_pairs is not None:
+            # an instance of C02_negative_query_on_wire_partial, re-checked on the implementation
+            stats["theorem_instances"] += 1
+            if not pairs or wire_valid_pairs(decl, pairs):
+                chk.disagree("C02_negative_query_on_wire_partial instance does not hold on the implementation", inp, pairs, "non-empty and invalid")
+        if i_guard and not pairs:
+            # the guard let a value through that is sent without any pair: what C02_query_guard_sound excludes
+            chk.fail("is_non_empty_query accepts a query that is sent without any key=value pair", inp,
+                     {"is_non_empty_query": True, "sent": "", "valid_for_location_schema": i_valid})
+    stats.update(extracted_object_tie(chk, max(40, n // 4)))
+    return stats
+
+
+def extracted_object_tie(chk, n):
+    """serialization.py extracted_object (through operation.get_parameter_serializer) and what is sent afterwards, against
+    Model_C02.extracted_object / wire_count."""
+    import schemathesis
+
+    from schemathesis.specs.openapi._hypothesis import jsonify_python_specific_types
+
+    rng = chk.rng
+    name, schema, extra = wire_param(WIRE_OPERATIONS[EXPLODED_OPERATION][0])
+    raw = {"openapi": "3.0.2", "info": {"title": "t", "version": "1"},
+           "paths": {"/x": {"post": {"parameters": [{"name": name, "in": "query", "required": False, "schema": schema, **extra}], "responses": {"200": {"description": "ok"}}}}}}
+    serialize = schemathesis.openapi.from_dict(raw)["/x"]["POST"].get_parameter_serializer("query")
+    members = [{"x": [None]}, {"x": []}, {"x": 1}, {"x": None}, {}, {"x": [[]], "y": 2}, {"zz": 3, "x": "a"}, {"f": 1}, {"f": [None]}, 5, None, "", [], [None], [{"x": 1}], True]
+    cases = [{"f": {"x": [None]}}, {"f": {"x": []}}, {"f": {}}, {"f": None}, {"zz": [None]}, {"f": {"x": 1}, "zz": []}, {"zz": 1, "f": {"zz": [None]}}, {"x": 2, "f": {"x": [None]}}]
+    for _ in range(n):
+        q = {}
+        for _ in range(rng.choice([1, 1, 2, 3])):
+            k = rng.choice(["f", "f", "x", "zz", ""])
+            q[k] = copy.deepcopy(rng.choice(members)) if k == "f" or rng.random() < 0.3 else gen_qvalue(rng)
+        cases.append(q)
+    exprs = [f"(let q := extracted_object {cstr(name)} {c_jdict(q)} in (q, wire_count q, is_non_empty_query {c_jdict(q)}))" for q in cases]
+    bad = 0
+    hits = 0
+    for q, (m_q, m_count, m_guard) in zip(cases, core.coq_eval(IMPORTS, exprs)):
+        inp = {"exploded_object_parameter": name, "query": q}
+        chk.seen({"extracted_object": q}, name in q)
+        got = serialize(copy.deepcopy(q))
+        mod = [(pstr(k), pjson(v)) for k, v in m_q]
+        if list(got.items()) != mod:
+            chk.disagree("serialization.extracted_object vs Model_C02.extracted_object", inp, list(got.items()), mod)
+            bad += 1
+            continue
+        pairs = prepared_query_pairs(jsonify_python_specific_types(copy.deepcopy(got)))
+        if len(pairs) != m_count:
+            chk.disagree("pairs of the prepared URL after extracted_object vs Model_C02.wire_count", inp, pairs, m_count)
+            bad += 1
+        if m_guard is True and not pairs:
+            hits += 1
+            chk.fail("is_non_empty_query accepts a query that is sent without any key=value pair once the serializer has run", inp,
+                     {"serialized": repr(got)[:200]}, region="guard_before_serializer")
+    return {"extracted_object_queries": len(cases), "extracted_object_disagreements": bad, "guard_passed_but_nothing_sent_after_serializer": hits}
+
+
+WIRE_OPERATIONS = [
+    [("limit", {"type": "integer"})],
+    [("limit", {"type": "integer"}), ("flag", {"type": "boolean"})],
+    [("flag", {"type": "boolean"})],
+    [("ids", {"type": "array", "items": {"type": "integer"}}), ("limit", {"type": "integer"})],
+    [("limit", {"type": "integer", "minimum": 0}), ("sort", {"type": "string", "enum": ["asc", "desc"]})],
+    # a declared object with explode true: the serializer extracted_object runs after the guard (finding F9)
+    [("f", {"type": "object", "properties": {"x": {"type": "integer"}}, "additionalProperties": False}, {"style": "form", "explode": True})],
+]
+EXPLODED_OPERATION = 5
+
+
+def wire_param(p):
+    """(name, schema, extra fields of the parameter object)"""
+    return (p[0], p[1], p[2] if len(p) > 2 else {})
+
+
+def wire_pool(params):
+    """Values a mutated location schema may produce (legality is decided per mutated schema): lists of None, nested empties,
+    mixed, alone and next to valid values and undeclared names."""
+    good = {"integer": 5, "boolean": True, "array": [1, 2], "string": "asc", "object": {"x": 1}}
+    params = [wire_param(p)[:2] for p in params]
+    names = [n for n, _ in params]
+    pool = []
+    for n in names:
+        for v in ([None], [None, None], [], [[]], [[], None], {}, None, [None, 1], [None, "a"], {"a": None}, [None, [], None], [[None]]):
+            pool.append({n: v})
+    if len(names) > 1:
+        a, b = names[0], names[1]
+        pool += [{a: [None], b: [None]}, {a: [], b: [None, None]}, {a: [None], b: [[]]}, {b: [None], a: good[dict(params)[a]["type"]]}]
+    first = names[0]
+    ok = good[dict(params)[first]["type"]]
+    if dict(params)[first]["type"] == "object":
+        pool += [{first: {"x": [None]}}, {first: {"x": []}}, {first: {"x": [[]]}}, {first: {"x": None}}, {first: {"x": 1, "y": []}}, {first: {"y": [None]}}]
+    pool += [{"zz": [None]}, {"zz": []}, {first: ok, "zz": []}, {first: ok, "zz": [None]}, {"zz": [None], "yy": []}, {first: ok, "zz": [[]]}, {first: [None], "zz": [None]}]
+    return pool
+
+
+def run_wire_operation(params, modes, seed_value, n, biased, rec):
+    """Negative cases of an operation whose only input is an all-optional query, sent over the real transport to the loopback
+    server; yields (case, raw query string received).  biased: from_schema of the negative strategy also offers the pool values
+    that are valid for the mutated schema it was called with (legal draws of from_schema, made frequent)."""
+    import jsonschema
+    import schemathesis
+    import schemathesis.specs.openapi.negative as N
+    from hypothesis import HealthCheck, Phase, given, seed, settings
+    from hypothesis import strategies as st
+    from hypothesis.errors import Unsatisfiable
+
+    from schemathesis.generation import GenerationConfig, GenerationMode
+
+    GM = {"Pos": GenerationMode.POSITIVE, "Neg": GenerationMode.NEGATIVE}
+    raw = {"openapi": "3.0.2", "info": {"title": "t", "version": "1"},
+           "paths": {"/x": {"post": {"parameters": [{"name": nm, "in": "query", "required": False, "schema": copy.deepcopy(s), **extra} for nm, s, extra in map(wire_param, params)],
+                                     "responses": {"200": {"description": "ok"}}}}}}
+    operation = schemathesis.openapi.from_dict(raw)["/x"]["POST"]
+    strategy = operation.as_strategy(generation_mode=GM["Neg"], generation_config=GenerationConfig(modes=[GM[m] for m in modes]))
+    pool = wire_pool(params)
+    orig = N.from_schema
+
+    def from_schema_biased(schema, **kw):
+        real = orig(schema, **kw)
+        try:
+            validator = jsonschema.Draft4Validator(schema)
+            legal = [v for v in pool if validator.is_valid(v)]
+        except Exception:  # noqa: BLE001
+            legal = []
+        if not legal:
+            return real
+        return st.one_of(real, st.sampled_from(legal).map(copy.deepcopy))
+
+    out = []
+    session = None
+    if rec is not None:
+        import requests
+
+        session = requests.Session()
+
+    @seed(seed_value)
+    @settings(max_examples=n, database=None, derandomize=False, deadline=None, suppress_health_check=list(HealthCheck), phases=[Phase.generate])
+    @given(strategy)
+    def collect(case):
+        if rec is None:  # no network: the URL of the prepared request
+            import requests
+
+            kw = case.as_transport_kwargs(base_url="http://127.0.0.1:9")
+            url = requests.Request(method=kw["method"], url=kw["url"], params=kw["params"]).prepare().url
+            out.append((case, "/" + url.split("/", 3)[3]))
+            return
+        rec.take()
+        case.call(base_url=rec.url, session=session)
+        got = rec.take()
+        target = got[0]["target"] if got else None
+        out.append((case, target))
+
+    if biased:
+        N.from_schema = from_schema_biased
+    try:
+        collect()
+    except Unsatisfiable:
+        pass
+    finally:
+        N.from_schema = orig
+        if session is not None:
+            session.close()
+    return out
+
+
+def oracle_wire_case(chk, params, modes, biased, case, target, stats):
+    exploded = any(extra.get("explode") and s["type"] == "object" for _, s, extra in map(wire_param, params))
+    flat = []  # the names a server reads: the members of an exploded object stand for the object
+    for n, s, extra in map(wire_param, params):
+        if s["type"] == "object" and extra.get("explode"):
+            flat += list(s["properties"].items())
+        else:
+            flat.append((n, s))
+    params_full, params = params, flat
+    decl = {n: ((s.get("items", {}).get("type", "string") if s["type"] == "array" else s["type"]), False) for n, s in params}
+    arrays = [n for n, s in params if s["type"] == "array"]
+    comps = {k.value: v.mode.name for k, v in case.meta.components.items()}
+    query = case.query
+    inp = {"wire_op": [list(p) for p in params_full], "modes": modes, "biased_draws": biased, "query": json.loads(json.dumps(query, default=repr)), "labels": comps}
+    stats["cases"] += 1
+    chk.seen({"wire_case": [inp["wire_op"], inp["query"]]}, isinstance(query, dict) and any(isinstance(v, (list, dict)) for v in query.values()))
+    if target is None:
+        return
+    if case.meta.generation.mode.name != "NEGATIVE" or comps.get("query") != "NEGATIVE":
+        chk.fail("negative-mode case of a query-only operation without the labels (case: negative, query: negative)", inp, comps)
+        return
+    qs = target.partition("?")[2]
+    pairs = decode_query_string(qs)
+    ok = wire_valid_pairs(decl, pairs, arrays)
+    for n, s in params:  # the remaining keywords of the declared schemas, read from the text
+        for k, text in pairs:
+            if ok and k == n and "enum" in s and text not in s["enum"]:
+                ok = False
+            if ok and k == n and "minimum" in s and INT_RE.match(text) and int(text) < s["minimum"]:
+                ok = False
+    if not ok:
+        stats["invalid_on_the_wire"] += 1
+        return
+    detail = {"received": target, "case.query": repr(query)[:200]}
+    if not pairs:
+        stats["sent_without_query"] += 1
+        chk.fail("case labelled negative (query: negative, the only part) is sent WITHOUT any query string: the API receives the plain valid request", inp, detail,
+                 region="guard_before_serializer" if exploded else None)
+    elif isinstance(query, dict) and any(k not in [p[0] for p in pairs] for k in query):
+        stats["valid_after_dropped_entry"] += 1
+        chk.fail("case labelled negative: the offending query entry sends nothing, the received query is valid for the declared schema", inp, detail,
+                 region="negated_entry_dropped_on_wire")
+    else:
+        stats["valid_as_text"] += 1
+        chk.fail("negative case is valid once values are turned into text", inp, detail, region="coercion_gap")
+
+
+def stage_query_on_wire(chk, n_natural, n_biased):
+    from harness.loopback import Recorder
+
+    rng = chk.rng
+    stats = {"operations": 0, "cases": 0, "invalid_on_the_wire": 0, "sent_without_query": 0, "valid_after_dropped_entry": 0, "valid_as_text": 0}
+    rec = Recorder()
+    rec.server.RequestHandlerClass.disable_nagle_algorithm = True  # header and body are written separately: 40 ms per request otherwise
+    try:
+        for i, params in enumerate(WIRE_OPERATIONS):
+            for biased, n in ((False, n_natural if i == 0 else n_natural // 4), (True, n_biased)):
+                modes = ["Neg"] if (i + biased) % 2 == 0 else ["Pos", "Neg"]
+                stats["operations"] += 1
+                for case, target in run_wire_operation(params, modes, rng.getrandbits(32), n, biased, rec):
+                    oracle_wire_case(chk, params, modes, biased, case, target, stats)
+    finally:
+        rec.close()
+    return stats
+
+
+# ----------------------------------------------------------------------------------------
 def run(chk: core.Check):
     quick = chk.tier == "quick"
     chk.trusted = [
         "Coq 8.16.1 kernel, vm_compute (witness lemmas and model evaluation); no axioms",
         "hand-written model theories/C02/Model_C02.v (label algebra of openapi_cases, three schema mutations on a Draft-4 fragment, "
-        "validity of the fragment, string coercion of scalars)",
+        "validity of the fragment, string coercion of scalars, the query on the wire: jsonify, empty-dict rewriting, the requests / urlencode loop incl. containers, the guard is_non_empty_query)",
         "correspondence harness harness/props/c02.py (shape generator, wrappers around get_parameters_strategy/_get_body_strategy/reject, "
         "scripted draw stub, encoders, the Coq output parser)",
         "python-jsonschema Draft4Validator as the reference for validity (also used by the implementation filter); the harness own format checks for date and ipv4; "
@@ -1481,6 +1916,10 @@ def run(chk: core.Check):
         "header / cookie schemas: keys of a declared schema are unique (a Python dict); the quantifier rewriting of pattern + length and the conversion of nested sub-schemas "
         "are not modelled (they never change whether the converted schema equals {type: string}; checked per run by the header_class stage)",
         "validity of sub-schemas under properties/items is an arbitrary function in the soundness theorems (python-jsonschema in the run)",
+        "query on the wire: requests RequestEncodingMixin._encode_params and urllib.parse.urlencode(doseq=True) are modelled by reading (tied per run to the URL of the prepared "
+        "request); percent-encoding is undone by the server (unquote_plus); query parameters without a serializer (no declared object type, arrays with the default explode); "
+        "Python repr of nested strings only for printable ASCII without quote and backslash; no floats; the biased draws of oracle E only offer values that python-jsonschema "
+        "accepts for the mutated schema from_schema was called with (legal draws of hypothesis-jsonschema, made frequent)",
     ]
     chk.rule = (
         "A: operation shapes from one PRNG (VERIF_SEED): 0-3 parameters per location over a table of schemas (plain string / {} / integer / boolean / enum / bounded, and without a top-level type: enum-only, minimum-only, anyOf-only), OpenAPI 3.0 (75%) or Swagger 2.0, "
@@ -1492,16 +1931,25 @@ def run(chk: core.Check):
         "lengths incl. 0, formats, example(s), dropped annotations, vendor extensions, nullable, file, numeric keywords, parameter-level example(s); OpenAPI 3.0 and Swagger 2.0): converted schema and "
         "can_negate_headers against Model_C02.header_prop_schema / header_class, the oracle reading against header_value_violable; non-trivial = claimed negatable.  "
         "A also runs, on every seed, one operation per constrained header schema (enum, pattern, minLength, maxLength, format, typed) x {header, cookie} whose only violable input is that "
-        "parameter (alone / plain sibling / constrained sibling / other location / open body / accept-anything path / query), modes [Neg] and [Pos,Neg].  Distinct by canonical JSON"
+        "parameter (alone / plain sibling / constrained sibling / other location / open body / accept-anything path / query), modes [Neg] and [Pos,Neg].  E: query dicts over declared (integer / boolean / string, optional or required) and undeclared names, values from scalars "
+        "(None, booleans, integers up to 66 bits, digit / word-like / reserved-character / non-ASCII strings) and containers (lists of None, nested empty lists, None mixed with values, dicts with None / "
+        "empty / nested values, random nesting to depth 2); non-trivial = a container value.  Oracle E: 5 query-only operations with all parameters optional (integer; integer + boolean; boolean; integer array + integer; "
+        "bounded integer + string enum), modes [Neg] and [Pos,Neg], natural Hypothesis draws plus draws where from_schema also offers lists of None / empty / nested-empty values that are valid for the mutated schema; "
+        "each case is sent with case.call to a loopback server and the raw query string it received is decoded and judged.  Distinct by canonical JSON"
     )
     chk.proofs(["Common", "C02"])
     boost = 10 if chk.broken else 1
     chk.stages["mutations"] = stage_mutations(chk, 1500 if quick else 12000)
     chk.stages["coercion"] = stage_coercion(chk, 200 if quick else 3000)
     chk.stages["header_class"] = stage_header_class(chk, 400 if quick else 4000)
+    chk.stages["query_wire"] = stage_query_wire(chk, 500 if quick else 5000)
+    boost = 10 if chk.broken else 1
+    chk.stages["query_on_wire"] = stage_query_on_wire(chk, (160 if quick else 1200) * (3 if boost > 1 else 1), (25 if quick else 200) * (3 if boost > 1 else 1))
     chk.stages["labels"] = stage_labels(chk, (125 if quick else 850) * boost, 6 if quick else 10)
     for f in chk.findings:
         chk.known(f, witness_fails(f["witness"]))
+    # end-to-end failing inputs (what the loopback server received) are listed before function-level ones
+    chk.failures.sort(key=lambda f: 0 if isinstance(f.get("input"), dict) and "wire_op" in f["input"] else 1)
 
 
 # ----------------------------------------------------------------------------------------
@@ -1559,7 +2007,39 @@ def witness_fails(w) -> bool:
             return final_explicit == "skip" and final_plain == "ok" and any(e["kind"] == "case" for e in events)
     if kind == "coercion":
         return coercion_replay(w) is not None
+    if kind == "dropped_entry":
+        return dropped_entry_replay(w) is not None
+    if kind == "exploded_object":
+        return exploded_object_replay(w) is not None
     return False
+
+
+def exploded_object_replay(w):
+    """Replays the recorded Hypothesis seeds on an optional object query parameter with explode true: a case labelled negative
+    (query: negative) whose prepared URL has no query string at all."""
+    for sd in w.get("seeds", [0, 1, 2]):
+        for case, target in run_wire_operation(WIRE_OPERATIONS[EXPLODED_OPERATION], ["Neg"], sd, w.get("examples", 150), False, None):
+            comps = {k.value: v.mode.name for k, v in case.meta.components.items()}
+            if "?" not in target.rstrip("?") and case.meta.generation.mode.name == "NEGATIVE" and comps.get("query") == "NEGATIVE" and case.query:
+                return {"seed": sd, "query": repr(dict(case.query)), "labels": comps, "url": target}
+    return None
+
+
+def dropped_entry_replay(w):
+    """Replays the recorded Hypothesis seeds on an optional integer query parameter: a case labelled negative whose only offending
+    entry (an undeclared name with an empty list / a list of None) sends nothing; the prepared URL carries limit=<integer> alone."""
+    params = WIRE_OPERATIONS[0]
+    for sd in w.get("seeds", [11, 15, 27]):
+        for case, target in run_wire_operation(params, ["Neg"], sd, w.get("examples", 60), False, None):
+            pairs = decode_query_string(target.partition("?")[2])
+            comps = {k.value: v.mode.name for k, v in case.meta.components.items()}
+            q = case.query
+            if (
+                pairs and wire_valid_pairs({"limit": ("integer", False)}, pairs) and isinstance(q, dict) and any(k not in [p[0] for p in pairs] for k in q)
+                and case.meta.generation.mode.name == "NEGATIVE" and comps.get("query") == "NEGATIVE"
+            ):
+                return {"seed": sd, "query": repr(dict(q)), "labels": comps, "url": target}
+    return None
 
 
 def coercion_replay(w):
@@ -1636,6 +2116,28 @@ def replay_shape(shape, mode="Neg", modes=("Neg",), seeds=(0, 1, 2, 3), n=20):
     return chk.failures
 
 
+def replay_wire_operation(params, modes, seeds=(0, 1, 2), n=120, n_biased=40):
+    """Re-runs one query-only operation (natural and biased draws) over the loopback server; reports the cases labelled negative
+    that arrived as a valid request."""
+    from harness.loopback import Recorder
+
+    chk = core.Check("C02", "quick", 0)
+    chk.findings = []
+    stats = {"operations": 0, "cases": 0, "invalid_on_the_wire": 0, "sent_without_query": 0, "valid_after_dropped_entry": 0, "valid_as_text": 0}
+    rec = Recorder()
+    rec.server.RequestHandlerClass.disable_nagle_algorithm = True
+    try:
+        for sd in seeds:
+            for biased, k in ((False, n), (True, n_biased)):
+                for case, target in run_wire_operation(params, list(modes), sd, k, biased, rec):
+                    oracle_wire_case(chk, params, list(modes), biased, case, target, stats)
+    finally:
+        rec.close()
+    kinds = sorted({f["what"].split(":")[0][:110] + " [" + str(f["region"]) + "] e.g. " + str((f["detail"] or {}).get("case.query")) for f in chk.failures if f["region"] is None})
+    listed = {k: v for k, v in stats.items() if k in ("valid_after_dropped_entry", "valid_as_text", "sent_without_query") and v}
+    return ("FAILS: " + "; ".join(kinds)[:700] if kinds else "passes") + f"  ({stats['cases']} cases, inside listed regions: {listed})"
+
+
 def replay(payload) -> int:
     for b in payload.get("broken_obligations_or_correspondence", []):
         print("broken:", b.get("kind"), b.get("what"))
@@ -1644,6 +2146,23 @@ def replay(payload) -> int:
         print("  model         :", str(b.get("model"))[:800])
     seen = set()
     for f in payload.get("failing_inputs", []):
+        inp = f.get("input") or {}
+        if isinstance(inp, dict) and "wire_op" in inp:
+            key = json.dumps([inp["wire_op"], inp["modes"]], sort_keys=True)
+            if key not in seen:
+                seen.add(key)
+                print("query-only operation", json.dumps(inp["wire_op"]), inp["modes"])
+                print("  ->", replay_wire_operation([tuple(x) for x in inp["wire_op"]], inp["modes"]))
+            continue
+        if isinstance(inp, dict) and "declared" in inp and "query" in inp:
+            from schemathesis.specs.openapi._hypothesis import jsonify_python_specific_types
+            from schemathesis.specs.openapi.negative import is_non_empty_query
+
+            q = inp["query"]
+            guard = bool(is_non_empty_query(copy.deepcopy(q)))
+            pairs = prepared_query_pairs(jsonify_python_specific_types(copy.deepcopy(q)))
+            print("query", json.dumps(q), "-> is_non_empty_query", guard, "sent", pairs, "->", "FAILS" if guard and not pairs else "passes")
+            continue
         shape = (f.get("input") or {}).get("shape")
         key = json.dumps([shape, (f.get("input") or {}).get("modes")], sort_keys=True)
         if shape is None or key in seen:
